@@ -147,6 +147,15 @@ def run(tier, seed):
         n = int(rng.integers(10, 21))
         ph, style = P.corner_phases(rng, n, style="generic")
         one(ctx, A, list(P.corner_poly(ph)), float(rng.choice([1e-3, 1e-3, 1e-4])), "achievable/accuracy-limit", {"style": style, "source_phases": ph})
+    # coefficient lists with exact TRAILING zeros (d+1 numbers whose last ones vanish): with an odd number of them P has the
+    # wrong parity for d+1 phases and nothing but an exception is right; with an even number a correct answer exists
+    for _ in range(40 if tier == "quick" else 400):
+        n = int(rng.integers(1, 9))
+        ph, style = P.corner_phases(rng, n, style="generic")
+        Pc = list(P.corner_poly(ph)) + [0j] * int(rng.choice([1, 1, 2, 3]))
+        if rng.random() < 0.3:
+            Pc = [complex(float(rng.uniform(0.2, 0.9)))] * 0 + [0j, complex(float(rng.uniform(0.2, 1.0))), 0j]       # [0, c, 0]
+        one(ctx, A, Pc, float(rng.choice([1e-6, 1e-6, 1e-4])), "trailing-zeros", {"style": style, "source_phases": ph})
     # tolerance 0 is a legal setting (and a falsy one): achievable corners and perturbations of them at 1e-9 .. 1e-6, where
     # an answer is only right if it is exact to rounding
     for _ in range(60 if tier == "quick" else 600):
